@@ -97,6 +97,19 @@ CHECKS = {
          'hex and enum<->str conversions trusted. Tie: JSON text and round-trip flags of every class vs extracted model; on the implementation: '
          '==, re-serialisation, Padding membership of reloaded paddings, and managers on original vs reloaded contexts give bit-identical results.',
          'proof (structural round trip through the dict model) + model/code correspondence', '7 C12'),
+
+ 'C08': ('Theorems c08_*: for every well-formed structured message (RfcHeaders.v, written from RFC 8200/791/768/7252/9260 independently of the '
+         'model) parse(encode m) = the prescribed field list (identifiers, order, occurrence positions, lengths, values) and header length: '
+         'fixed IPv6/IPv4/UDP headers followed by anything, CoAP with token 0..8 and any option list over the three delta/length classes, '
+         'SCTP with every chunk type, parameters and padding, the two explicit stacks, and the predictive parsers (agreeing with the explicit '
+         'stacks). Tie: protocol-aware generators vs extracted model vs independent reference field lists in Python.',
+         'proof (parser inverts the RFC encoder, induction over options / chunks / parameters) + model/code correspondence', '7 C08'),
+ 'C19': ('Theorems c19_*: for every well-formed CoAP message, semantic parsing returns one field per option named after its number with its '
+         'value, un-parsing those fields returns exactly the syntactic field sequence (ids and values), hence parse-semantic then unparse '
+         'equals parse-syntactic. Tie: option sequences over known/unknown numbers, every delta and length class incl. 12/13/268/269, repeats, '
+         'with/without payload: semantic parse and unparse vs extracted model, unparse vs syntactic parse, plus the whole pipeline through '
+         'PacketParser / compress / decompress with un-parser.',
+         'proof (unparse inverts the semantic view, induction over options) + model/code correspondence', '7 C19'),
 }
 ALL = ['C%02d' % i for i in range(1, 21)]
 checks = []
